@@ -275,18 +275,6 @@ fn run_impl(text: String, origin: Option<Name>) -> Ran {
     rx.recv_timeout(Duration::from_secs(WATCHDOG_S)).unwrap_or(Ran::Hang)
 }
 
-/// `RecordType::from_str` / `DNSClass::from_str` start with
-/// `debug_assert!(no ASCII lower-case letter)`; two callers do not upper-case first (known finding
-/// `mnemonic-case-debug-assert`): the type list of CSYNC, and class / type in the trust-anchor parser.
-/// Class predicate for a zone text: the mnemonic CSYNC is followed by a lower-case letter.
-fn csync_lowercase_item(text: &str) -> bool {
-    // (the lexer can cut items where white space does not, e.g. `"0"a`: any lower-case letter after the mnemonic)
-    match text.to_ascii_uppercase().find("CSYNC") {
-        Some(k) => text[k + 5..].chars().any(|c| c.is_ascii_lowercase()),
-        None => false,
-    }
-}
-
 /// `tanchor <text-hex>` : `serialize::txt::trust_anchor::Parser::new(text).parse()` — the other
 /// parser in serialize/txt; no model side; oracle: Ok or Err, never a panic or a hang.
 /// `zonep <path-hex> <origin|-> <text-hex>` : the zone parser with `path = Some(..)` (for `$INCLUDE`).
@@ -323,14 +311,7 @@ fn exec_other(t: &[&str], line: &str, rec: &mut Recorder) {
             std::process::exit(3);
         }
         Ok(Err(p)) => {
-            // the trust-anchor parser's only calls of the two from_str are the un-upper-cased ones
-            let class = if t[0] == "tanchor" && p.contains("is_ascii_lowercase") && text.chars().any(|c| c.is_ascii_lowercase()) {
-                "mnemonic-case-debug-assert"
-            } else if t[0] == "zonep" && p.contains("parent folder") && text.to_ascii_uppercase().contains("$INCLUDE") {
-                "include-path-without-parent"
-            } else {
-                ""
-            };
+            let class = "";
             rec.fail(idx, format!("panic: {p}"), class)
         }
         Ok(Ok(Ok(()))) => rec.stat("outcome.ok"),
@@ -344,10 +325,226 @@ fn exec_other(t: &[&str], line: &str, rec: &mut Recorder) {
     }
 }
 
+/// runs `f` on its own thread under catch_unwind and the watchdog; a hang names the case and stops
+fn guarded<T: Send + 'static>(line: &str, rec: &mut Recorder, f: impl FnOnce() -> T + Send + 'static) -> Result<T, String> {
+    rec.announce(line);
+    let (tx, rx) = mpsc::channel();
+    let _ = std::thread::Builder::new().stack_size(16 << 20).spawn(move || {
+        let _ = tx.send(catch(f));
+    });
+    match rx.recv_timeout(Duration::from_secs(WATCHDOG_S)) {
+        Ok(r) => r,
+        Err(_) => {
+            let _ = std::fs::write(rec.out_dir.join("HANG.case"), format!("{line}\n"));
+            eprintln!("HANG: no result within {WATCHDOG_S} s on: {}", &line[..line.len().min(300)]);
+            std::process::exit(3);
+        }
+    }
+}
+
+fn dump_arc(map: &BTreeMap<RrKey, std::sync::Arc<RecordSet>>) -> Vec<String> {
+    let mut v = vec![];
+    for rs in map.values() {
+        for r in rs.records_without_rrsigs() {
+            v.push(format!("{}|rrset-ttl={}", rec_norm(r), rs.ttl()));
+        }
+    }
+    v.sort();
+    v
+}
+
+/// types whose RDATA text holds no domain name relative to an origin (for comparing entry points)
+const NAMELESS_TYPES: &[&str] = &["A", "AAAA", "TXT", "HINFO", "CAA", "TLSA", "SMIMEA", "DS", "SSHFP", "CERT", "OPENPGPKEY", "CSYNC"];
+
+/// Further entry points to the same logic (no model side):
+/// `rdata <TYPE> <text-hex>` : `RData::try_from_str(type, text)` (lexer + `from_tokens` without the line
+///     machine); oracle: no panic / hang, and when both this and the zone parser accept the text for a type
+///     without names, the same RDATA;
+/// `zonefile <origin> <text-hex>` : the text written to `<out>/zf/z.zone` and loaded by the server's
+///     `FileZoneHandler::try_from_config` (store/file.rs, in_memory::zone_from_path, InMemoryZoneHandler::new);
+///     oracle: no panic / hang; if the zone parser accepts the text, it has an SOA at the origin, every record is
+///     class IN and no CNAME shares its owner, the store holds exactly the parsed records; if the parser
+///     refuses the text, so does the store;
+/// `zoneinc <origin> <main-hex> <name:hex,name:hex|-> <expected-origin|-> <expected-records|-|!>` : the files
+///     written to `<out>/zf/inc/`, `main.zone` parsed with its path so that `$INCLUDE` reads the others.
+fn exec_more(t: &[&str], line: &str, rec: &mut Recorder) {
+    use std::str::FromStr;
+    let dir = rec.out_dir.join("zf");
+    match t[0] {
+        "rdata" => {
+            let Ok(rt) = hickory_proto::rr::RecordType::from_str(&t[1].to_ascii_uppercase()) else { return rec.stat("skipped.unparsable-case") };
+            let Some(Ok(text)) = unhex(t[2]).map(String::from_utf8) else { return rec.stat("skipped.unparsable-case") };
+            let idx = rec.case(line.to_string(), "~".into());
+            rec.impl_only += 1;
+            rec.stat("op.rdata");
+            let (ty, text2) = (t[1].to_string(), text.clone());
+            let r = guarded(line, rec, move || {
+                let a = RData::try_from_str(rt, &text2).map(|d| rdata_tok(&d, &name_tok)).map_err(|e| err_kind(&e));
+                let zone = format!("a 60 IN {ty} {text2}\n");
+                let b = Parser::new(zone, None, Some(Name::from_ascii("example.com.").unwrap())).parse().map_err(|e| err_kind(&e)).map(|(_, m)| {
+                    m.values().flat_map(|rs| rs.records_without_rrsigs().map(|r| rdata_tok(&r.data, &name_tok)).collect::<Vec<_>>()).collect::<Vec<_>>()
+                });
+                (a, b)
+            });
+            match r {
+                Err(p) => rec.fail(idx, format!("panic: {p}"), ""),
+                Ok((a, b)) => {
+                    rec.stat(if a.is_ok() { "rdata.ok" } else { "rdata.err" });
+                    if let (Ok(a), Ok(b)) = (&a, &b) {
+                        let simple = !text.contains(|c: char| "\n\r;()@$".contains(c));
+                        if simple && NAMELESS_TYPES.contains(&t[1].to_ascii_uppercase().as_str()) && b.len() == 1 && b[0] != *a {
+                            rec.fail(idx, format!("RData::try_from_str and the zone parser read the same RDATA text differently: {a} vs {}", b[0]), "");
+                        }
+                        rec.stat("rdata.both-ok");
+                    }
+                }
+            }
+            if text.len() >= 3 {
+                rec.nontrivial(idx);
+            }
+        }
+        "zonefile" => {
+            let Some(origin) = parse_name(t[1]) else { return rec.stat("skipped.unparsable-case") };
+            let Some(Ok(text)) = unhex(t[2]).map(String::from_utf8) else { return rec.stat("skipped.unparsable-case") };
+            if !include_is_safe(&text) || text.to_ascii_uppercase().contains("$INCLUDE") {
+                return rec.stat("skipped.include-of-existing-path");
+            }
+            let idx = rec.case(line.to_string(), "~".into());
+            rec.impl_only += 1;
+            rec.stat("op.zonefile");
+            let _ = std::fs::create_dir_all(&dir);
+            let _ = std::fs::write(dir.join("z.zone"), &text);
+            let (dir2, origin2, text2) = (dir.clone(), origin.clone(), text.clone());
+            let r = guarded(line, rec, move || {
+                use hickory_server::store::file::{FileConfig, FileZoneHandler};
+                use hickory_server::zone_handler::{AxfrPolicy, ZoneType};
+                let direct = Parser::new(text2, Some(dir2.join("z.zone")), Some(origin2.clone())).parse().map_err(|e| err_kind(&e));
+                let cfg = FileConfig { zone_path: "z.zone".into() };
+                let h = FileZoneHandler::try_from_config(origin2.clone(), ZoneType::Primary, AxfrPolicy::Deny, Some(&dir2), &cfg, None);
+                let stored = h.map(|h| {
+                    let rt = tokio::runtime::Builder::new_current_thread().build().unwrap();
+                    rt.block_on(async { dump_arc(&*h.records().await) })
+                });
+                let direct = direct.map(|(_, m)| {
+                    let soa = m.iter().any(|(k, _)| k.record_type == hickory_proto::rr::RecordType::SOA && *k.name() == hickory_proto::rr::LowerName::new(&origin2));
+                    let all_in = m.values().all(|rs| rs.records_without_rrsigs().all(|r| u16::from(r.dns_class) == 1));
+                    let cname_alone = m.keys().all(|k| {
+                        k.record_type != hickory_proto::rr::RecordType::CNAME || m.keys().filter(|k2| k2.name() == k.name()).count() == 1
+                    });
+                    let mut v = vec![];
+                    for rs in m.values() {
+                        for r in rs.records_without_rrsigs() {
+                            v.push(format!("{}|rrset-ttl={}", rec_norm(r), rs.ttl()));
+                        }
+                    }
+                    v.sort();
+                    (v, soa && all_in && cname_alone)
+                });
+                (direct, stored)
+            });
+            match r {
+                Err(p) => rec.fail(idx, format!("panic: {p}"), ""),
+                Ok((direct, stored)) => match (direct, stored) {
+                    (Err(_), Ok(_)) => rec.fail(idx, "the zone parser refuses the text but FileZoneHandler::try_from_config loads the file", ""),
+                    (Err(_), Err(_)) => rec.stat("zonefile.both-err"),
+                    (Ok((_, true)), Err(e)) => rec.fail(idx, format!("a zone file with SOA, class IN, no CNAME clash is parsed but not loaded by the store: {}", &e[..e.len().min(120)]), ""),
+                    (Ok((want, true)), Ok(got)) => {
+                        if want != got {
+                            let missing = want.iter().filter(|w| !got.contains(w)).count();
+                            let extra = got.iter().filter(|g| !want.contains(g)).count();
+                            rec.fail(idx, format!("the store holds other records than the zone parser produced ({missing} missing, {extra} unexpected)"), "");
+                        } else {
+                            rec.stat("zonefile.loaded-equal");
+                            rec.nontrivial(idx);
+                        }
+                    }
+                    (Ok((_, false)), Ok(_)) => rec.stat("zonefile.loaded-unjudged"),
+                    (Ok((_, false)), Err(_)) => rec.stat("zonefile.store-refused"),
+                },
+            }
+        }
+        "zoneinc" => {
+            let Some(origin) = parse_name(t[1]) else { return rec.stat("skipped.unparsable-case") };
+            let Some(Ok(main)) = unhex(t[2]).map(String::from_utf8) else { return rec.stat("skipped.unparsable-case") };
+            let idir = dir.join("inc");
+            let _ = std::fs::remove_dir_all(&idir);
+            let _ = std::fs::create_dir_all(&idir);
+            let mut all = main.clone();
+            if t[3] != "-" {
+                for f in t[3].split(',') {
+                    let Some((n, h)) = f.split_once(':') else { return rec.stat("skipped.unparsable-case") };
+                    let Some(b) = unhex(h) else { return rec.stat("skipped.unparsable-case") };
+                    if !n.chars().all(|c| c.is_ascii_alphanumeric() || c == '.') || n.contains("..") {
+                        return rec.stat("skipped.unparsable-case");
+                    }
+                    all.push_str(&String::from_utf8_lossy(&b));
+                    let _ = std::fs::write(idir.join(n), &b);
+                }
+            }
+            // every $INCLUDE must name a plain file of this directory
+            if all.split_whitespace().zip(all.split_whitespace().skip(1)).any(|(a, b)| a.eq_ignore_ascii_case("$INCLUDE") && !b.chars().all(|c| c.is_ascii_alphanumeric() || c == '.')) {
+                return rec.stat("skipped.include-of-existing-path");
+            }
+            let _ = std::fs::write(idir.join("main.zone"), &main);
+            let idx = rec.case(line.to_string(), "~".into());
+            rec.impl_only += 1;
+            rec.stat("op.zoneinc");
+            let (exp_origin, expected) = (t.get(4).copied().unwrap_or("-"), t.get(5).copied().unwrap_or("-"));
+            let path = idir.join("main.zone");
+            let r = guarded(line, rec, move || {
+                Parser::new(main, Some(path), Some(origin)).parse().map_err(|e| err_kind(&e)).map(|(o, m)| dump(&o, &m))
+            });
+            match r {
+                Err(p) => rec.fail(idx, format!("panic: {p}"), ""),
+                Ok(Err(k)) => {
+                    rec.stat(&format!("zoneinc.err.{k}"));
+                    if expected != "-" && expected != "!" {
+                        rec.fail(idx, "a well-formed zone file with $INCLUDE was rejected", "");
+                    }
+                }
+                Ok(Ok((_, norm, nrec, lo))) => {
+                    rec.stat("zoneinc.ok");
+                    if expected == "!" {
+                        rec.fail(idx, "$INCLUDE nested beyond the limit / of itself was accepted", "");
+                    } else if expected != "-" {
+                        let mut want: Vec<String> = if expected == "0" { vec![] } else { expected.split('|').map(String::from).collect() };
+                        want.sort();
+                        let class = include_class(t[3]);
+                        if norm != want {
+                            let missing = want.iter().filter(|w| !norm.contains(w)).count();
+                            let extra = norm.iter().filter(|g| !want.contains(g)).count();
+                            rec.fail(idx, format!("loaded records differ from the denoted ones ({missing} missing, {extra} unexpected)"), class);
+                        } else if exp_origin != "-" && lo != exp_origin {
+                            rec.fail(idx, "zone origin differs from the denoted one", class);
+                        } else {
+                            rec.stat("expect.met");
+                        }
+                    }
+                    if nrec > 0 {
+                        rec.nontrivial(idx);
+                    }
+                }
+            }
+        }
+        _ => {}
+    }
+}
+
+/// class of a `zoneinc` failure: an included file contains `$ORIGIN` (RFC 1035 5.1: "a $INCLUDE entry
+/// never changes the relative origin of the parent file, regardless of changes to the relative origin
+/// made within the included file")
+fn include_class(files: &str) -> &'static str {
+    let has_origin = files.split(',').filter_map(|f| f.split_once(':')).filter_map(|(_, h)| unhex(h)).any(|b| String::from_utf8_lossy(&b).to_ascii_uppercase().contains("$ORIGIN"));
+    if has_origin { "include-origin-leaks" } else { "" }
+}
+
 pub fn exec(line: &str, rec: &mut Recorder) {
     let t: Vec<&str> = line.split_whitespace().collect();
     if (t.len() >= 2 && t[0] == "tanchor") || (t.len() >= 4 && t[0] == "zonep") {
         return exec_other(&t, line, rec);
+    }
+    if (t.len() >= 3 && matches!(t[0], "rdata" | "zonefile")) || (t.len() >= 4 && t[0] == "zoneinc") {
+        return exec_more(&t, line, rec);
     }
     if t.len() < 4 || t[0] != "zone" {
         rec.stat("skipped.unparsable-case");
@@ -417,10 +614,7 @@ pub fn exec(line: &str, rec: &mut Recorder) {
     ));
     // ---- the property's oracle, on the implementation's answer only
     match &ran {
-        Ran::Panic(p) => {
-            let class = if p.contains("is_ascii_lowercase") && csync_lowercase_item(&text) { "mnemonic-case-debug-assert" } else { "" };
-            rec.fail(idx, format!("panic: {p}"), class)
-        }
+        Ran::Panic(p) => rec.fail(idx, format!("panic: {p}"), ""),
         Ran::Hang => rec.fail(idx, "hang: no result within 30 s", ""),
         _ => {}
     }
@@ -1313,6 +1507,10 @@ enum Step {
     Filler,
     /// record, name policy (0 random / 1 relative / 2 absolute)
     Rec(GRec, u8),
+    /// a line as it is
+    Raw(String),
+    /// forget what could be inherited (owner, TTL, class): the next record states everything
+    Reset,
 }
 
 fn render_plan(r: &mut Rng, origin: &GName, plan: &[Step]) -> (String, GName, Vec<&'static str>) {
@@ -1330,17 +1528,22 @@ fn render_plan(r: &mut Rng, origin: &GName, plan: &[Step]) -> (String, GName, Ve
         paren_bias: true,
         clean: true,
     };
-    let nrec = plan.iter().filter(|s| matches!(s, Step::Rec(..))).count();
-    let mut k = 0;
-    for st in plan {
+    for (k, st) in plan.iter().enumerate() {
         match st {
             Step::Origin(o) => p.directive_origin(o),
             Step::Ttl(t) => p.directive_ttl(*t),
             Step::Filler => p.filler(),
+            Step::Raw(l) => p.out.push_str(l),
+            Step::Reset => {
+                p.last_owner = None;
+                p.last_ttl = None;
+                p.default_ttl = None;
+                p.last_class = Some(0);
+            }
             Step::Rec(rec, pol) => {
-                k += 1;
                 p.name_policy = *pol;
-                p.record(rec, k == nrec);
+                // only the very last line of the file may lack its newline
+                p.record(rec, k + 1 == plan.len());
                 p.name_policy = 0;
             }
         }
@@ -1752,8 +1955,7 @@ fn fuzz_token(r: &mut Rng, t: &str) -> String {
     }
 }
 
-/// trust-anchor files (`. 172800 IN DNSKEY 257 3 8 <base64>`), valid and mutated, upper case only where
-/// the known debug-assert finding would fire otherwise (that one has its own corpus lines)
+/// trust-anchor files (`. 172800 IN DNSKEY 257 3 8 <base64>`), valid and mutated
 fn tanchor_case(r: &mut Rng) -> String {
     let mut toks: Vec<String> = ["example.com.", "172800", "IN", "DNSKEY", "257", "3", "8", "AwEAAagAIKlVZrpC6Ia7gEzahOR+9W29euxhJhVVLOyQbSEW0O8gcCjF", "FVQUTf6v58fLjwBd0YI0EzrAcQqBGCzh/RStIoO8g0NfnfL2MTJRkxoX"]
         .iter()
@@ -1762,8 +1964,7 @@ fn tanchor_case(r: &mut Rng) -> String {
     for _ in 0..r.below(3) {
         let i = r.below(toks.len() as u64) as usize;
         let f = fuzz_token(r, &toks[i].clone());
-        // class and type position: keep clear of the known finding
-        toks[i] = if (1..4).contains(&i) { f.to_ascii_uppercase() } else { f };
+        toks[i] = f;
     }
     if r.chance(1, 4) {
         toks.remove(1);
@@ -1776,6 +1977,150 @@ fn tanchor_case(r: &mut Rng) -> String {
         text.push('\n');
     }
     format!("tanchor {}", hex(text.as_bytes()))
+}
+
+/// TTL texts at and around every overflow branch of `parse_ttl` (plain, with units, sums), in the TTL
+/// field, in `$TTL` and in the SOA's numeric fields (model side: `parseTtl`)
+fn ttl_fuzz_case(r: &mut Rng) -> String {
+    const T: &[&str] = &[
+        "0", "1", "4294967295", "4294967296", "4294967294", "04294967295", "00000000000000000001", "99999999999999999999", "18446744073709551616",
+        "7101w", "7102w", "49710d", "49711d", "1193046h", "1193047h", "71582788m", "71582789m", "4294967295s", "4294967296s", "4294967296w",
+        "49710d6h28m15s", "49710d6h28m16s", "4294967295s1", "4294967294s1", "4294967295s0", "1w4294362495", "1w4294362496", "3w3w", "1s2d3w4h2m", "1h1", "1h1h1h",
+        "1S", "1M", "1H", "1D", "1W", "1x", "w", "1ww", "s1", "1 w", "+1", "-1", "1.5h", "0w", "0s0", "4294967295w0", "99999999999w", "2147483647", "2147483648", "2147483648s",
+    ];
+    let a = *r.pick(T);
+    let b = *r.pick(T);
+    let text = match r.below(5) {
+        0 => format!("a {a} A 1.2.3.4\n"),
+        1 => format!("$TTL {a}\na A 1.2.3.4\n b {b} A 1.2.3.5\n"),
+        2 => format!("a 60 SOA ns adm {a} {b} {} {} {}\n", r.pick(T), r.pick(T), r.pick(T)),
+        3 => format!("a {a} IN {b} A 1.2.3.4\n"),
+        _ => format!("$TTL {a} ; {b}\n$TTL {b}\na A 1.2.3.4\n"),
+    };
+    let origin = GName(vec![b"example".to_vec(), b"com".to_vec()]);
+    case_line("m", &origin, &text, None)
+}
+
+/// `RData::try_from_str(type, text)` on valid and mutated RDATA texts
+fn rdata_entry_case(r: &mut Rng) -> String {
+    let (ty, samples) = *r.pick(RDATA_SAMPLES);
+    let mut toks: Vec<String> = r.pick(samples).iter().map(|s| s.to_string()).collect();
+    if r.chance(1, 2) && !toks.is_empty() {
+        let i = r.below(toks.len() as u64) as usize;
+        toks[i] = fuzz_token(r, &toks[i].clone());
+    }
+    let mut text = toks.join(" ");
+    if text.len() > 5000 {
+        text.truncate(300);
+    }
+    if r.chance(1, 6) {
+        text = format!("( {text} )");
+    }
+    if r.chance(1, 6) {
+        text.push_str(" ; comment\n");
+    }
+    format!("rdata {ty} {}", hex(text.as_bytes()))
+}
+
+/// a servable zone (SOA at the origin, class IN, no CNAME next to other data) in a random layout, loaded
+/// through the server's FileZoneHandler; a share of the files mutated (no expectation beyond consistency)
+fn zonefile_case(r: &mut Rng) -> String {
+    let origin = simple_origin(r);
+    let mut recs = gen_records(r, &origin, false, true);
+    for x in recs.iter_mut() {
+        x.class = 1;
+    }
+    recs.retain(|x| x.code != 6);
+    let names = |o: &GName, l: &[u8]| {
+        let mut ls = vec![l.to_vec()];
+        ls.extend(o.0.iter().cloned());
+        GName(ls)
+    };
+    recs.insert(0, GRec { owner: origin.clone(), rtype: "SOA", code: 6, class: 1, ttl: 3600, data: GData::Soa(names(&origin, b"ns"), names(&origin, b"adm"), r.next() as u32, 7200, 600, 86400, 60) });
+    // CNAME / ANAME only where nothing else lives
+    let owners: Vec<String> = recs.iter().map(|x| x.owner.tok_lower()).collect();
+    let mut keep = vec![];
+    for (i, x) in recs.iter().enumerate() {
+        let others = owners.iter().enumerate().filter(|(j, o)| *j != i && **o == owners[i] && recs[*j].code != x.code).count();
+        let clash = (x.code == 5 && others > 0) || recs.iter().enumerate().any(|(j, y)| j != i && y.code == 5 && owners[j] == owners[i] && x.code != 5);
+        if !clash {
+            keep.push(x.clone());
+        }
+    }
+    let (mut text, _, _, name_ddd) = render(r, &origin, &keep, true);
+    let _ = name_ddd;
+    if r.chance(1, 4) {
+        text = mutate(r, &text);
+    }
+    format!("zonefile {} {}", origin.tok(), hex(text.as_bytes()))
+}
+
+/// `$INCLUDE`: a main file and included files (one level or a chain), records before, inside and after;
+/// a share of the included files move the origin with `$ORIGIN` (which must not reach the parent:
+/// RFC 1035 5.1); includes of the file itself / chains beyond the limit must be errors, not hangs
+fn zoneinc_case(r: &mut Rng) -> String {
+    let origin = simple_origin(r);
+    let lab = |r: &mut Rng| gen_alnum_label(r, 3);
+    let under = |o: &GName, l: Vec<u8>| {
+        let mut ls = vec![l];
+        ls.extend(o.0.iter().cloned());
+        GName(ls)
+    };
+    if r.chance(1, 6) {
+        // unbounded nesting: the file includes itself, or a -> b -> a
+        let (main, files) = if r.chance(1, 2) {
+            ("x 60 A 1.2.3.4\n$INCLUDE main.zone\n".to_string(), "-".to_string())
+        } else {
+            ("$INCLUDE b.zone\n".to_string(), format!("b.zone:{}", hex(b"y 60 A 1.2.3.4\n$INCLUDE main.zone\n")))
+        };
+        return format!("zoneinc {} {} {} {} !", origin.tok(), hex(main.as_bytes()), files, origin.tok_lower());
+    }
+    let ttl = r.range(1, 9999) as u32;
+    let mut recs = vec![];
+    let mut mk = |r: &mut Rng, o: &GName| {
+        let l = lab(r);
+        let x = rec_a(r, &under(o, l), ttl);
+        recs.push(x.clone());
+        x
+    };
+    // included file(s)
+    let moved = r.chance(1, 3);
+    let o2 = if moved { simple_origin(r) } else { origin.clone() };
+    let mut inc_plan = vec![Step::Filler];
+    if moved {
+        inc_plan.push(Step::Origin(o2.clone()));
+    }
+    inc_plan.push(Step::Reset);
+    for _ in 0..r.range(1, 2) {
+        let x = mk(r, &o2);
+        inc_plan.push(Step::Rec(x, if moved { 1 } else { 0 }));
+    }
+    let chain = r.chance(1, 3);
+    let mut files = vec![];
+    if chain {
+        let x = mk(r, &o2);
+        let (t3, _, _) = render_plan(r, &o2, &[Step::Reset, Step::Rec(x, 0), Step::Filler]);
+        files.push(("c.zone", t3));
+        inc_plan.push(Step::Raw("$INCLUDE c.zone ; nested\n".into()));
+    }
+    let (inc_text, _, _) = render_plan(r, &origin, &inc_plan);
+    files.push(("b.zone", inc_text));
+    // main file: records, the include, records written relative to the parent's origin
+    let mut plan = vec![Step::Filler];
+    if r.chance(1, 2) {
+        let x = mk(r, &origin);
+        plan.push(Step::Rec(x, 0));
+    }
+    plan.push(Step::Raw(format!("$INCLUDE{}b.zone{}\n", if r.chance(1, 4) { "\t" } else { " " }, if r.chance(1, 3) { " ; included" } else { "" })));
+    plan.push(Step::Reset);
+    for _ in 0..r.range(1, 2) {
+        let x = mk(r, &origin);
+        plan.push(Step::Rec(x, 1));
+    }
+    let (main, final_origin, _) = render_plan(r, &origin, &plan);
+    let exp = recs.iter().map(GRec::norm).collect::<Vec<_>>().join("|");
+    let fl = files.iter().map(|(n, t)| format!("{n}:{}", hex(t.as_bytes()))).collect::<Vec<_>>().join(",");
+    format!("zoneinc {} {} {} {} {}", origin.tok(), hex(main.as_bytes()), fl, final_origin.tok_lower(), exp)
 }
 
 fn rdata_fuzz_case(r: &mut Rng, rec: &mut Recorder) -> String {
@@ -2097,6 +2442,27 @@ pub fn run(o: &Opts, rec: &mut Recorder) {
     for _ in 0..o.n(4000, 200_000) {
         rec.stat("stream.rdata-fuzz");
         let line = rdata_fuzz_case(&mut r2, rec);
+        exec(&line, rec);
+    }
+    for k in 0..o.n(2400, 40_000) {
+        let line = match k % 8 {
+            0 | 1 => {
+                rec.stat("stream.ttl-fuzz");
+                ttl_fuzz_case(&mut r2)
+            }
+            2..=4 => {
+                rec.stat("stream.rdata-entry");
+                rdata_entry_case(&mut r2)
+            }
+            5 | 6 => {
+                rec.stat("stream.zonefile");
+                zonefile_case(&mut r2)
+            }
+            _ => {
+                rec.stat("stream.zoneinc");
+                zoneinc_case(&mut r2)
+            }
+        };
         exec(&line, rec);
     }
     for _ in 0..o.n(300, 20_000) {
